@@ -121,6 +121,12 @@ AFTER_DECL = {
     'b2': ['declare sub s8 (a%)', 'defstr y', 'const k9$ = "k"', 'dim shared w9(1 to 2, 3) as double',
            'y9 = k9$', 'on error goto 0', 'e9: print y9'],
 }
+# blank, comment and indented lines before the slot: every line contributes its
+# length + 1 to the reported offset, whatever it contains
+AFTER_BLANK = {
+    'b1': ['', "' a comment line", 'rem another one', '   print 0   ', ''],
+    'b2': ['', '', "cls ' trailing comment", '\t', 'rem'],
+}
 PROC = {
     'b1': {'sub': (['call s9'], ['sub s9'], ['end sub']),
            'function': (['print f9%(1)'], ['function f9% (a9%)'], ['f9% = a9%', 'end function'])},
@@ -160,6 +166,8 @@ def make_context(name, base, outer=None):
         first = True
     elif name == 'after_decl':
         module_pre = list(module_pre) + AFTER_DECL[base]
+    elif name == 'after_blank':
+        module_pre = list(module_pre) + AFTER_BLANK[base]
     elif name in ('sub', 'function'):
         assert outer is None
         scope = name
@@ -176,7 +184,7 @@ def make_context(name, base, outer=None):
                    proc_open, proc_close, first)
 
 
-SINGLE_CONTEXTS = ['first', 'after_decl', 'if1_then', 'if1_else', 'colon', 'ifblk',
+SINGLE_CONTEXTS = ['first', 'after_decl', 'after_blank', 'if1_then', 'if1_else', 'colon', 'ifblk',
                    'elseblk', 'for', 'for_in_if', 'do', 'select', 'sub', 'function']
 PAIR_OUTER = ['sub', 'function', 'ifblk', 'elseblk', 'for', 'for_in_if', 'do',
               'loop_until', 'select', 'after_decl']
@@ -191,7 +199,7 @@ class Variant:
     def __init__(self, rule, name, good, bad, codes=None, types=(), decls=(),
                  procs=(), after=(), mafter=(), bad_types=None, bad_decls=None,
                  bad_procs=None, where='slot', at=0, also=(), structural=False,
-                 applies=None, oneline=None, codes_fn=None):
+                 applies=None, oneline=None, codes_fn=None, construct=None):
         self.rule = rule
         self.name = name
         self.good = [good] if isinstance(good, str) else list(good)
@@ -216,6 +224,17 @@ class Variant:
             oneline = len(self.good) == 1 and len(self.bad) == 1
         self.oneline = oneline
         self.codes_fn = codes_fn
+        self._construct = construct
+
+    def construct(self, ctx):
+        """input-side name of the construct the faulted text exercises in this
+        context (ledger matching); the variant name unless the catalogue says
+        that several (variant, context) cells are one construct"""
+        if self._construct is not None:
+            c = self._construct(ctx) if callable(self._construct) else self._construct
+            if c:
+                return c
+        return self.name
 
     def codes_in(self, ctx):
         if self.codes_fn is not None:
@@ -354,11 +373,29 @@ for nm, g, b in [
         ('color_str', 'color 1, 2', 'color "a", 2'),
         ('sound_str', 'sound 100, 1', 'sound "a", 1'),
         ('randomize_str', 'randomize 1', 'randomize "a"'),
-        ('kill_num', 'kill "f"', 'kill 1'),
+        ('color_bg_str', 'color 1, 2', 'color 1, "a"'),
+        ('sound_duration_str', 'sound 100, 1', 'sound 100, "a"'),
+        ('screen_second_str', 'screen 0, 1', 'screen 0, "a"'),
+        ('width_lines_str', 'width 80, 25', 'width 80, "a"'),
+        ('view_print_bottom', 'view print 1 to 2', 'view print 1 to "b"'),
+        ('poke_address', 'poke 1, 2', 'poke "a", 2'),
+        ('bload_offset_str', 'bload "f", 1', 'bload "f", "a"'),
+        ('bsave_length_str', 'bsave "f", 1, 2', 'bsave "f", 1, "a"'),
+        ('peek_str', 'nv% = peek(1)', 'nv% = peek("a")'),
+        ('rnd_str', 'nv! = rnd(1)', 'nv! = rnd("a")'),
+        ('instr_start_str', 'nv% = instr(1, "ab", "b")', 'nv% = instr("1", "ab", "b")'),
+        ('instr_three_num', 'nv% = instr(1, "ab", "b")', 'nv% = instr(1, "ab", 2)'),
         ('def_seg_str', 'def seg = 0', 'def seg = "a"'),
         ('print_using_num', 'print using "#"; 1', 'print using 1; 1'),
 ]:
     add('R05', nm, g, b, TM)
+for nm, g, b in [
+        ('kill_num', 'kill "f"', 'kill 1'),
+        ('kill_numvar', 'kill sv$', 'kill nv%'),
+        ('bload_num', 'bload "f", 1', 'bload 1, 1'),
+        ('bsave_num', 'bsave "f", 1, 2', 'bsave 3, 1, 2'),
+]:
+    add('R05', nm, g, b, TM, construct='file-name-argument')
 add('R05', 'lbound_scalar', 'nv% = lbound(av)', 'nv% = lbound(nv%)', TM, decls=D_ARR)
 
 # ---- R06 undefined label / line number ------------------------------------
@@ -382,22 +419,29 @@ add('R06', 'restore_in_proc', 'restore', 'restore nolab', ('LABEL_NOT_DEFINED',)
     applies=lambda c: 'bad' if c.scope != 'module' else None)
 add('R06', 'on_error', 'on error goto lab1', 'on error goto nolab', ('LABEL_NOT_DEFINED',), mafter=LBL)
 add('R06', 'on_error_lineno', 'on error goto 100', 'on error goto 999', ('LABEL_NOT_DEFINED',), mafter=LBL)
+add('R06', 'on_error_label_in_routine', 'on error goto lab1', 'on error goto xlab', ('LABEL_NOT_DEFINED',),
+    mafter=LBL, procs=P_LAB)
 add('R06', 'goto_other_routine', 'goto lab1', 'goto xlab', ('LABEL_NOT_DEFINED',), after=LBL, procs=P_LAB)
 add('R06', 'gosub_other_routine_lineno', 'gosub 100', 'gosub 300', ('LABEL_NOT_DEFINED',), after=LBL, procs=P_LAB)
 add('R06', 'goto_module_label_from_proc', 'goto lab1', 'goto mlab', ('LABEL_NOT_DEFINED',), after=LBL,
     mafter=['mlab: print 5'], applies=lambda c: 'bad' if c.scope != 'module' else None)
 
 # ---- R07 duplicate label / line number ------------------------------------
+def _label_site(c):
+    # the slot of the select contexts is the body of a CASE
+    return 'label-in-case-body' if c.levels and 'direct_select' in c.levels[-1].tags else None
+
+
 add('R07', 'label', ['lab2: print 1'], ['lab1: print 1'], ('DUPLICATE_LABEL',), after=LBL,
-    also=[('after', 0)], oneline=False)
+    also=[('after', 0)], oneline=False, construct=_label_site)
 add('R07', 'lineno', ['200 print 1'], ['100 print 1'], ('DUPLICATE_LABEL',), after=LBL,
-    also=[('after', 1)], oneline=False)
+    also=[('after', 1)], oneline=False, construct=_label_site)
 add('R07', 'label_alone', ['lab2:'], ['lab1:'], ('DUPLICATE_LABEL',), after=LBL,
-    also=[('after', 0)], oneline=False)
+    also=[('after', 0)], oneline=False, construct=_label_site)
 add('R07', 'label_in_other_routine', ['lab2: print 1'], ['xlab: print 1'], ('DUPLICATE_LABEL',),
-    procs=P_LAB, also=[('procs', 1)], oneline=False)
+    procs=P_LAB, also=[('procs', 1)], oneline=False, construct=_label_site)
 add('R07', 'lineno_in_other_routine', ['200 print 1'], ['300 print 1'], ('DUPLICATE_LABEL',),
-    procs=P_LAB, also=[('procs', 2)], oneline=False)
+    procs=P_LAB, also=[('procs', 2)], oneline=False, construct=_label_site)
 
 # ---- R08 duplicate definition ---------------------------------------------
 DD = ('DUPLICATE_DEFINITION',)
@@ -409,9 +453,15 @@ add('R08', 'dim_same_stmt', 'dim dw as integer, dx as long', 'dim dw as integer,
 add('R08', 'const_twice', 'const kd = 2', 'const kc = 2', DD, decls=['const kc = 1'], also=[('decls', 0)])
 add('R08', 'const_after_var', 'const kd = 2', 'const vq = 2', DD, decls=['vq = 1'], also=[('decls', 0)])
 add('R08', 'assign_to_const', 'nv% = kc', 'kc = 5', DD, decls=['const kc = 1'])
-add('R08', 'input_to_const', 'input nv%', 'input kc', None, decls=['const kc = 1'])
-add('R08', 'read_to_const', 'read nv%', 'read kc', None, decls=['const kc = 1'], mafter=['data 5'])
-add('R08', 'for_const_var', ['for k1% = 1 to 2', 'next'], ['for kc = 1 to 2', 'next'], None, decls=['const kc = 1'])
+add('R08', 'input_to_const', 'input nv%', 'input kc', None, decls=['const kc = 1'], construct='store-into-const')
+add('R08', 'input_second_to_const', 'input "?"; nv%, nw%', 'input "?"; nv%, kc', None, decls=['const kc = 1'],
+    construct='store-into-const')
+add('R08', 'read_to_const', 'read nv%', 'read kc', None, decls=['const kc = 1'], mafter=['data 5'],
+    construct='store-into-const')
+add('R08', 'for_const_var', ['for k1% = 1 to 2', 'next'], ['for kc = 1 to 2', 'next'], None, decls=['const kc = 1'],
+    construct='store-into-const')
+add('R08', 'input_to_local_const', ['const kl = 1', 'input nv%'], ['const kl = 1', 'input kl'], None, at=1,
+    construct='store-into-const')
 add('R08', 'dim_routine_name', 'dim dw as integer', 'dim ps0 as integer', DD, procs=P_SUB0)
 add('R08', 'assign_to_sub_name', 'nv% = 10', 'ps0 = 10', DD, procs=P_SUB0)
 add('R08', 'assign_to_function', 'nv% = pf1%(3)', 'pf1%(3) = 1', DD, procs=P_FN1)
@@ -428,9 +478,16 @@ add('R08', 'type_twice', 'rv.px = 1', 'rv.px = 1', DD, types=PT + ['type pu', 'q
 add('R08', 'field_twice', 'rv.px = 1', 'rv.px = 1', DD + (SYNTAX,), types=PT,
     bad_types=['type pt', 'px as integer', 'px as long', 'end type'], decls=D_REC, where='types', at=2,
     also=[('types', 1), ('types', 0)])
-add('R08', 'param_twice', 'call pdp(1, 2)', 'call pdp(1, 2)', None,
+add('R08', 'param_twice', 'print 1', 'print 1', None,
     procs=['sub pdp (a%, b%)', 'print a%', 'end sub'],
-    bad_procs=['sub pdp (a%, a%)', 'print a%', 'end sub'], where='procs', at=0)
+    bad_procs=['sub pdp (a%, a%)', 'print a%', 'end sub'], where='procs', at=0, construct='duplicate-parameter')
+add('R08', 'param_twice_called', 'call pdp(1, 2)', 'call pdp(1, 2)', None,
+    procs=['sub pdp (a%, b%)', 'print a%', 'end sub'],
+    bad_procs=['sub pdp (a%, a%)', 'print a%', 'end sub'], where='procs', at=0, construct='duplicate-parameter')
+add('R08', 'function_param_twice', 'print 1', 'print 1', None,
+    procs=['function pdf% (a$, b%, c$)', 'pdf% = b%', 'end function'],
+    bad_procs=['function pdf% (a$, b%, a$)', 'pdf% = b%', 'end function'], where='procs', at=0,
+    construct='duplicate-parameter')
 
 # ---- R09 argument count ----------------------------------------------------
 AC = ('ARGUMENT_COUNT_MISMATCH',)
@@ -556,15 +613,23 @@ def _else_codes(c):
     return None if 'if' in c.tags else ('ELSE_WITHOUT_IF',)
 
 
+def _else_site(c):
+    # slot of the ELSE-part context: the text is a second ELSE part of that block
+    if c.inner_kind == 'if' and 'after_else' in c.levels[-1].tags:
+        return 'else-part-after-else'
+    return None
+
+
 for _nm, _b in [('else', 'else'), ('elseif', 'elseif nv% then'), ('elseif_with_stmt', 'elseif nv% then print 2')]:
-    add('R15', _nm, ['print 1'], [_b], applies=_else_app, codes_fn=_else_codes, oneline=True, structural=True)
+    add('R15', _nm, ['print 1'], [_b], applies=_else_app, codes_fn=_else_codes, oneline=True, structural=True,
+        construct=_else_site)
 # second ELSE / ELSEIF after the ELSE of the same block
 add('R15', 'else_after_else', ['if nv% then', 'print 1', 'else', 'print 2', 'end if'],
     ['if nv% then', 'print 1', 'else', 'print 2', 'else', 'print 3', 'end if'], None, at=4, structural=True,
-    also=[('slot', 2)])
+    also=[('slot', 2)], construct='else-part-after-else')
 add('R15', 'elseif_after_else', ['if nv% then', 'print 1', 'else', 'print 2', 'end if'],
     ['if nv% then', 'print 1', 'else', 'print 2', 'elseif nv% = 2 then', 'print 3', 'end if'], None, at=4,
-    structural=True, also=[('slot', 2)])
+    structural=True, also=[('slot', 2)], construct='else-part-after-else')
 add('R15', 'else_in_inner_loop', ['if nv% then', 'for k1% = 1 to 2', 'print 1', 'next', 'else', 'end if'],
     ['if nv% then', 'for k1% = 1 to 2', 'else', 'next', 'end if'], None, at=2, structural=True)
 
@@ -606,12 +671,22 @@ OPENERS = [('if', ['if nv% then', 'print 1'], 'end if'),
            ('while', ['while nv%', 'nv% = 0'], 'wend'),
            ('select', ['select case nv%', 'case 1', 'print 1'], 'end select'),
            ('nested_inner', ['for k1% = 1 to 2', 'if nv% then', 'print 1', 'next'], None)]
+def _unclosed_if_site(c):
+    # base 2 puts ELSEIF / ELSE parts after the slot: an unclosed IF..ELSE there
+    # swallows them, i.e. the text has an ELSE part after an ELSE
+    if c.levels and c.levels[-1].single is None and \
+            any(l.split()[0] in ('else', 'elseif') for l in c.levels[-1].close):
+        return 'else-part-after-else'
+    return None
+
+
 for nm, body, term in OPENERS:
     if term is None:
         add('R18', nm, ['for k1% = 1 to 2', 'if nv% then', 'print 1', 'end if', 'next'], body, None,
             at=1, also=[('slot', 3), ('slot', 0)], structural=True)
     else:
-        add('R18', nm, body + [term], body, None, at=0, structural=True)
+        add('R18', nm, body + [term], body, None, at=0, structural=True,
+            construct=_unclosed_if_site if nm == 'if_else' else None)
 add('R18', 'sub', 'call ps0', 'call ps0', None, procs=P_SUB0 + ['sub pq', 'print 1', 'end sub'],
     bad_procs=P_SUB0 + ['sub pq', 'print 1'], where='procs', at=3, structural=True)
 add('R18', 'function', 'call ps0', 'call ps0', None, procs=P_SUB0 + ['function pq', 'pq = 1', 'end function'],
@@ -659,9 +734,15 @@ for nm, g, b in [
         ('in_print', 'print 32767%', 'print 40000%'),
         ('in_condition', 'if nv% = 1% then print 1', 'if nv% = 1.5% then print 1'),
         ('two_points', 'nv! = 1.5', 'nv! = 1.5.2'),
-        ('double_overflow', 'nv# = 1d308', 'nv# = 1d400'),
 ]:
     add('R20', nm, g, b, None)
+for nm, g, b in [
+        ('double_overflow', 'nv# = 1d308', 'nv# = 1d400'),
+        ('double_overflow_suffix', 'nv# = 1.5d308#', 'nv# = 1.5d309#'),
+        ('single_overflow_huge', 'nv! = 1e38', 'nv! = 1e400'),
+        ('double_overflow_in_print', 'print 2d307', 'print 2d999'),
+]:
+    add('R20', nm, g, b, None, construct='float-literal-beyond-double-range')
 
 # ---- R21 non-constant CONST ------------------------------------------------
 IC = ('INVALID_CONSTANT',)
@@ -748,7 +829,10 @@ add('R25', 'array_pass_of_scalar', 'call psa(av())', 'call psa(nv%())', TM, decl
 add('R25', 'array_pass_in_expr', 'nv% = av(1)', 'nv% = av()', TM, decls=D_ARR)
 add('R25', 'array_to_scalar_param', 'call ps1(av(1))', 'call ps1(av())', TM, decls=D_ARR, procs=P_SUB1)
 add('R25', 'read_record', ['read rv.px', 'data 1'], ['read rv', 'data 1'], TM, types=PT, decls=D_REC,
-    applies=_notproc)
+    applies=_notproc, construct='read-into-record')
+add('R25', 'read_record_second', 'read nv%, rv.px', 'read nv%, rv', TM, types=PT, decls=D_REC, mafter=['data 1, 2'],
+    construct='read-into-record')
+add('R25', 'input_record_second', 'input nv%, rv.px', 'input nv%, rv', TM, types=PT, decls=D_REC)
 
 # ---- R26 FOR/NEXT variable mismatch, DO and LOOP both conditional ---------
 BM = ('BLOCK_MISMATCH',)
@@ -758,6 +842,10 @@ add('R26', 'next_other_suffix', ['for k1% = 1 to 2', 'next k1%'], ['for k1% = 1 
     also=[('slot', 0)])
 add('R26', 'nested_next_swapped', ['for k1% = 1 to 2', 'for k2% = 1 to 2', 'next k2%', 'next k1%'],
     ['for k1% = 1 to 2', 'for k2% = 1 to 2', 'next k1%', 'next k2%'], BM, at=2, also=[('slot', 1), ('slot', 0)])
+add('R26', 'next_list_swapped', ['for k1% = 1 to 2', 'for k2% = 1 to 2', 'next k2%, k1%'],
+    ['for k1% = 1 to 2', 'for k2% = 1 to 2', 'next k1%, k2%'], BM, at=2, also=[('slot', 1), ('slot', 0)])
+add('R26', 'next_list_too_long', ['for k1% = 1 to 2', 'for k2% = 1 to 2', 'next k2%, k1%'],
+    ['for k1% = 1 to 2', 'next k1%, k2%'], None, at=1, also=[('slot', 0)], structural=True)
 add('R26', 'do_loop_both_while', ['do while nv%', 'nv% = 0', 'loop'], ['do while nv%', 'nv% = 0', 'loop while nv%'],
     BM, at=2, also=[('slot', 0)])
 add('R26', 'do_until_loop_until', ['do', 'nv% = 1', 'loop until nv%'], ['do until nv%', 'nv% = 1', 'loop until nv%'],
